@@ -47,7 +47,7 @@ var c07Alts = func() []c07Alt {
 }()
 
 var (
-	c07Locals  = []string{"none", "match-recvonly", "match-sendrecv", "other-kind", "abandoned-offer"}
+	c07Locals  = []string{"none", "match-recvonly", "match-sendrecv", "other-kind", "abandoned-offer", "data-channel"}
 	c07Engines = []string{"default", "audio-only"}
 )
 
@@ -323,6 +323,13 @@ func c07Setup(t *testing.T, pc *PeerConnection, cs c07Case) bool {
 				add(k, RTPTransceiverDirectionRecvonly)
 			}
 		}
+	case "data-channel":
+		// the local side wants data channels, whether or not the offer has an application section
+		if _, err := pc.CreateDataChannel("c07", nil); err != nil {
+			panic(fmt.Sprintf("harness: CreateDataChannel: %v", err))
+		}
+
+		return true
 	case "abandoned-offer":
 		// a video and an audio transceiver that got the provisional mids 0 and 1 from a CreateOffer whose
 		// offer is never applied (glare: the remote offer is applied first); the offers use the mids 2,0,1
@@ -415,7 +422,7 @@ func c07Reoffers(first []int, appendToo bool) [][]int {
 func TestVerifC07(t *testing.T) {
 	c := vkit.New("C07", "exploration")
 	defer c.Finish(t)
-	c.Rule("case = (first offer: every sequence of 1..N section alternatives, alternative = media type {audio, video, application, text, message} x direction attribute {sendrecv, sendonly, recvonly, inactive, none} x codec list {supported, unsupported only, mixed} (audio/video only), mids = 2,0,1 by position; local side {none, a recvonly transceiver per offered audio/video section, a sendrecv transceiver with track per offered audio/video section, recvonly transceivers of the audio/video kinds NOT offered}; MediaEngine {default, opus only}); SetRemoteDescription -> CreateAnswer on a fresh PeerConnection. Re-offer part: a second offer on the same PeerConnection after SetLocalDescription(answer) that replaces one section by another alternative (of the same or of another media type) or appends a section. Non-trivial = CreateAnswer succeeded and the answer mirrors the offer, classed by (sections, rejected sections, round, local side, engine)")
+	c.Rule("case = (first offer: every sequence of 1..N section alternatives, alternative = media type {audio, video, application, text, message} x direction attribute {sendrecv, sendonly, recvonly, inactive, none} x codec list {supported, unsupported only, mixed} (audio/video only), mids = 2,0,1 by position; local side {none, a recvonly transceiver per offered audio/video section, a sendrecv transceiver with track per offered audio/video section, recvonly transceivers of the audio/video kinds NOT offered, a local data channel}; MediaEngine {default, opus only}); SetRemoteDescription -> CreateAnswer on a fresh PeerConnection. Re-offer part: a second offer on the same PeerConnection after SetLocalDescription(answer) that replaces one section by another alternative (of the same or of another media type) or appends a section. Non-trivial = CreateAnswer succeeded and the answer mirrors the offer, classed by (sections, rejected sections, round, local side, engine)")
 	c.Assume("only what the statement says is judged: section count, order, media type and a=mid per section; whether an accepted or rejected section SHOULD have been accepted is not judged")
 	c.Assume("cases where SetRemoteDescription or CreateAnswer returns an error are not judged (the statement is about successful CreateAnswer)")
 	known := &c07Dropped{m: map[string]bool{}}
